@@ -3,8 +3,11 @@ package c10
 // The direct falsifier: the abstract multi-version ordered map of coq/Index/MVMap.v re-stated in
 // Go.  Every output of the implementation is compared with what the map defines; a snapshot is
 // identified with the state the tree had at the logical time the snapshot reports (Ts()), which
-// must be >= the requested time.  Two known defects are recognised by their exact signature and
-// reported with a fixed text (see known_findings/C10.json); anything else is a violation.
+// must be >= the requested time.  One known defect (a rejected batch rolls the tree back to the
+// last flushed root) is recognised by its exact signature and reported with a fixed text (see
+// known_findings/C10.json); anything else is a violation -- in particular the two repaired
+// defects (e30fc04 lastUpdateBetween overrun, 18b7c7d tree emptied by a rejected batch after a
+// restart) are probed on every run and reported if they come back.
 
 import (
 	"bytes"
@@ -15,7 +18,6 @@ import (
 )
 
 const (
-	knownOverrun  = "lastUpdateBetween walks past the key's own history chain into history-log block 0 (finalTs below the key's oldest version, a block holding >= 2 entries)"
 	knownRollback = "a rejected BulkInsert (same key with a decreasing timestamp inside one batch) rolled the tree back to the last flushed root: earlier accepted inserts are gone"
 )
 
@@ -44,6 +46,31 @@ type oracle struct {
 	folder  uint64
 	dumps   []uint64
 	maxKeys int
+	// the newest state that is certainly flushed (explicit flush, sync, restart): a rollback must
+	// never lose anything of it (its logical time may go back when it came from the TIMESTAMP file)
+	floor *mv
+}
+
+// flushed: the current state is on disk and is the last flushed root
+func (o *oracle) flushed() {
+	if !o.dead {
+		o.floor = o.cur
+	}
+}
+
+// lostFlushed: a key of the last certainly-flushed state that the tree no longer holds as it was
+func (o *oracle) lostFlushed(x *runner) string {
+	if o.floor == nil {
+		return ""
+	}
+	for _, k := range o.floor.keys {
+		vs := o.floor.vers[k]
+		_, ts, hc, err := x.t.Get([]byte(k))
+		if err != nil || ts < vs[0].Ts || hc < uint64(len(vs)) {
+			return fmt.Sprintf("key %x (flushed as @%d, %d versions; now ts=%d hc=%d err=%v)", k, vs[0].Ts, len(vs), ts, hc, err)
+		}
+	}
+	return ""
 }
 
 func newOracle(cfg Cfg) *oracle {
@@ -126,7 +153,9 @@ func (o *oracle) insert(x *runner, op Op, ok bool) {
 	}
 	// a rejected insert must leave the tree as it was
 	if ts := x.t.Ts(); ts != o.cur.ts {
-		if mapRejected {
+		if lost := o.lostFlushed(x); mapRejected && lost != "" {
+			x.violation("rejected BulkInsert lost content of the last flushed/loaded state (fixed by 18b7c7d: tree emptied after a restart)", op, lost, "kept")
+		} else if mapRejected {
 			x.known = append(x.known, fmt.Sprintf("%s (Ts() %d -> %d)", knownRollback, o.cur.ts, ts))
 		} else {
 			x.violation("rejected BulkInsert changed Ts()", op, fmt.Sprint(ts), fmt.Sprint(o.cur.ts))
@@ -138,7 +167,9 @@ func (o *oracle) insert(x *runner, op Op, ok bool) {
 		v, ts, hc, err := x.t.Get([]byte(k))
 		vs := o.cur.vers[k]
 		if err != nil || !bytes.Equal(v, vs[0].Value) || ts != vs[0].Ts || hc != uint64(len(vs)) {
-			if mapRejected {
+			if lost := o.lostFlushed(x); mapRejected && lost != "" {
+				x.violation("rejected BulkInsert lost content of the last flushed/loaded state (fixed by 18b7c7d: tree emptied after a restart)", op, lost, "kept")
+			} else if mapRejected {
 				x.known = append(x.known, fmt.Sprintf("%s (key %x)", knownRollback, k))
 			} else {
 				x.violation("rejected BulkInsert changed the tree", op, fmt.Sprintf("%x@%d", v, ts), fmt.Sprintf("%x@%d", vs[0].Value, vs[0].Ts))
@@ -203,6 +234,7 @@ func (o *oracle) reopen(x *runner, op Op) {
 		x.violation("Ts() after restart", op, fmt.Sprint(ts), fmt.Sprint(o.cur.ts))
 		o.dead = true
 	}
+	o.flushed()
 }
 
 func (o *oracle) snapshot(x *runner, op Op, sts uint64, ok bool) {
@@ -261,13 +293,6 @@ func specBetween(vs []tvT, i, f uint64) (tvT, uint64, bool) {
 	return tvT{}, 0, false
 }
 
-// the signature of the known overrun: the map says "not found" because every version of the key
-// is newer than finalTs, the key has at least 3 versions (only then a history block can hold 2
-// entries), and the implementation returned something
-func overrunSignature(vs []tvT, i, f uint64, implOk bool) bool {
-	return implOk && len(vs) >= 3 && i <= f && f != 0 && vs[len(vs)-1].Ts > f
-}
-
 func (o *oracle) between(x *runner, op Op, v []byte, ts, hc uint64, ok bool) {
 	st := o.state(op)
 	if o.dead || st == nil {
@@ -276,10 +301,6 @@ func (o *oracle) between(x *runner, op Op, v []byte, ts, hc uint64, ok bool) {
 	vs := st.vers[string(hx(op.Key))]
 	tv, whc, wok := specBetween(vs, op.I, op.F)
 	if wok != ok || (ok && (!bytes.Equal(v, tv.Value) || ts != tv.Ts || hc != whc)) {
-		if !wok && overrunSignature(vs, op.I, op.F, ok) {
-			x.known = append(x.known, fmt.Sprintf("%s: GetBetween(%s,%d,%d) = %x@%d", knownOverrun, op.Key, op.I, op.F, v, ts))
-			return
-		}
 		x.violation("GetBetween", op, fmt.Sprintf("%x@%d hc=%d ok=%v", v, ts, hc, ok), fmt.Sprintf("%x@%d hc=%d ok=%v", tv.Value, tv.Ts, whc, wok))
 	}
 }
@@ -380,7 +401,7 @@ func (o *oracle) prefix(x *runner, op Op, k, v []byte, ts, hc uint64, ok bool) {
 }
 
 // spec of a range reader, stated on the ORIGINAL ReaderSpec (MVMap.mv_scan)
-func (o *oracle) specScan(st *mv, op Op) ([]ent, []ent /* entries only the overrun can add */) {
+func (o *oracle) specScan(st *mv, op Op) []ent {
 	seek, end, prefix := hx(op.Seek), hx(op.End), hx(op.Prefix)
 	var sel []string
 	for _, key := range st.keys {
@@ -404,10 +425,10 @@ func (o *oracle) specScan(st *mv, op Op) ([]ent, []ent /* entries only the overr
 		}
 	}
 	if op.Off >= uint64(len(sel)) {
-		return nil, nil
+		return nil
 	}
 	sel = sel[op.Off:]
-	var out, extra []ent
+	var out []ent
 	for _, key := range sel {
 		vs := st.vers[key]
 		n := uint64(len(vs))
@@ -424,14 +445,12 @@ func (o *oracle) specScan(st *mv, op Op) ([]ent, []ent /* entries only the overr
 		case "between":
 			if tv, hc, ok := specBetween(vs, op.I, op.F); ok {
 				out = append(out, ent{[]byte(key), tv.Value, tv.Ts, hc})
-			} else if overrunSignature(vs, op.I, op.F, true) {
-				extra = append(extra, ent{k: []byte(key)})
 			}
 		default:
 			out = append(out, ent{[]byte(key), vs[0].Value, vs[0].Ts, n})
 		}
 	}
-	return out, extra
+	return out
 }
 
 func entEq(a, b ent) bool {
@@ -451,40 +470,14 @@ func (o *oracle) read(x *runner, op Op, es []ent, ok bool) {
 	if !ok {
 		return
 	}
-	want, extra := o.specScan(st, op)
+	want := o.specScan(st, op)
 	same := len(want) == len(es)
 	for i := 0; same && i < len(es); i++ {
 		same = entEq(es[i], want[i])
 	}
-	if same {
-		return
+	if !same {
+		x.violation("Reader", op, fmtEnts(es), fmtEnts(want))
 	}
-	// the known overrun can only ADD entries for keys whose every version is newer than finalTs
-	if len(extra) > 0 {
-		isExtra := func(k []byte) bool {
-			for _, e := range extra {
-				if bytes.Equal(e.k, k) {
-					return true
-				}
-			}
-			return false
-		}
-		var filtered []ent
-		for _, e := range es {
-			if !isExtra(e.k) {
-				filtered = append(filtered, e)
-			}
-		}
-		same = len(want) == len(filtered)
-		for i := 0; same && i < len(filtered); i++ {
-			same = entEq(filtered[i], want[i])
-		}
-		if same {
-			x.known = append(x.known, fmt.Sprintf("%s: ReadBetween(%d,%d) yields %d entries for keys without a version in the window", knownOverrun, op.I, op.F, len(es)-len(filtered)))
-			return
-		}
-	}
-	x.violation("Reader", op, fmtEnts(es), fmtEnts(want))
 }
 
 func fmtEnts(es []ent) string {
